@@ -179,6 +179,18 @@ func eligibleBody(pk *packages.Package, body *ast.BlockStmt, sig *types.Signatur
 	ok := true
 	ast.Inspect(body, func(n ast.Node) bool {
 		switch x := n.(type) {
+		case *ast.FuncLit:
+			// defer, labels, goto and recover inside a nested literal belong to that literal and move with it; only a
+			// reference to the function itself matters there
+			ast.Inspect(x.Body, func(m ast.Node) bool {
+				if id, isID := m.(*ast.Ident); isID {
+					if o := pk.TypesInfo.Uses[id]; o != nil && o == self {
+						ok = false
+					}
+				}
+				return ok
+			})
+			return false
 		case *ast.DeferStmt, *ast.LabeledStmt:
 			ok = false
 		case *ast.BranchStmt:
